@@ -448,5 +448,47 @@ def run_all(ctx):
     for i in range(ctx.budget(25, 250)):
         case_reduce_many_paths(ctx)
         case_eval_statements(ctx)
+        case_parquet_paths(ctx)
     for i in range(ctx.budget(12, 120)):
         case_paths(ctx, collide=[None, "field_a", "literal_dotted", None][i % 4])
+
+
+def case_parquet_paths(ctx):
+    """paths in a parquet column selection: `nest.field` entries of two nests interleaved with base columns name
+    exactly those fields / columns — what item access gives for the same paths"""
+    import io
+    import itertools
+    from nested_pandas import read_parquet
+    rng = ctx.rng
+    nf, schema, markers, lens, base_extra = build_frame(ctx)
+    if any("." in n for n in schema) or base_extra:
+        return
+    nests = list(schema)
+    l0 = [f"{nests[0]}.{f}" for f in schema[nests[0]]]
+    l1 = [f"{nests[1]}.{f}" for f in schema[nests[1]]]
+    inter = [x for pair in itertools.zip_longest(l0, l1) for x in pair if x]
+    base = rng.sample(["x", "base col"], rng.randint(1, 2))
+    pos = rng.randint(0, len(inter))
+    cols = inter[:pos] + base[:1] + inter[pos:] + base[1:]
+    if rng.random() < 0.5:
+        rng.shuffle(cols)
+
+    def run():
+        buf = io.BytesIO()
+        nf.to_parquet(buf)
+        buf.seek(0)
+        r = read_parquet(buf, columns=cols)
+        out = {"columns": sorted(str(c) for c in r.columns if not str(c).startswith("__index_level")),
+               "fields": {n: sorted(r[n].nest.fields) for n in nests if n in r.columns and isinstance(r[n].dtype, NestedDtype)}}
+        vals = {}
+        for p in cols:
+            v = r[p]
+            vals[p] = [None if x is None or x != x else float(x) for x in pa.array(v).to_pylist()]
+        out["values"] = vals
+        return out
+    exp = {"columns": sorted(set(base) | set(nests)), "fields": {n: sorted(schema[n]) for n in nests}, "values": {}}
+    for p in cols:
+        v = nf[p] if p not in ("x", "base col") else pd.DataFrame.__getitem__(nf, p)
+        exp["values"][p] = [None if x is None or x != x else float(x) for x in pa.array(v).to_pylist()]
+    ctx.case("names.parquet_selection", {"columns": cols, "schema": schema_json(nf, schema)}, call_real(run), None, {"ok": exp},
+             features=("parquet_selection", f"k={len(cols)}"), nontrivial=True)
